@@ -236,7 +236,7 @@ package forkexec
 // id maps of a new user namespace (model U in /verif/spec/userns_U.contracts): uid_map first, then
 // setgroups ("deny" unless gid mappings are given with setgroups enabled), then gid_map - for the child's
 // pid; every error is an errno value (syncWithChild type-asserts it).
-//@ func pkg/forkexec.writeFile props C04 C12
+//@ func pkg/forkexec.writeFile props C04 C07 C12
 //@   arith int
 //@   assigns FD.closed, U.n, U.path, U.data
 //@   ensures result != nil ==> hastype(result, syscall.Errno)
@@ -256,7 +256,7 @@ package forkexec
 //@ spec defmap(id int) string = "0 " + itoa(id) + " 1"
 //@ macro bytes_are(b, s) = len(b) == len(s) && forall q int :: 0 <= q && q < len(b) ==> b[q] == s[q]
 
-//@ func pkg/forkexec.writeIDMaps props C04
+//@ func pkg/forkexec.writeIDMaps props C04 C07
 //@   arith int
 //@   requires r != nil
 //@   assigns FD.closed, U.n, U.path, U.data
